@@ -114,7 +114,7 @@ def job_audio(j):
         shutil.copyfile(BASES[j["base"]], base)
         files = []
         for i, kind in enumerate(j["files"]):
-            p = work / f"import {i} {kind}{AUDIO[kind].suffix}"
+            p = work / (j["names"][i] if j.get("names") else f"import {i} {kind}{AUDIO[kind].suffix}")
             shutil.copyfile(AUDIO[kind], p)
             files.append(p)
         mpq_io = StarCraftMpqIoHelper.create_mpq_io()
@@ -148,7 +148,11 @@ def job_audio(j):
         t = RichTrigger(_conditions=[AlwaysCondition()], _actions=acts, _players={PlayerId.PLAYER_1})
         rich2 = RichChkEditor().replace_chk_section(RichTrigSection(_triggers=trig.triggers + [t]), rich)
         out2 = work / "out2.scx"
-        mpq_io.save_chk_to_mpq(rich2, str(out), str(out2))
+        try:
+            mpq_io.save_chk_to_mpq(rich2, str(out), str(out2))
+        except Exception as ex:  # noqa
+            problems.append(f"a PlayWav of the imported sound under its canonical path cannot be saved: {type(ex).__name__}: {str(ex)[:120]}")
+            return {"problems": problems, "members": len(mo)}
         v2 = SC.SpecView(SC.save(mpq_io.read_chk_from_mpq(str(out2))))
         last = v2.triggers()[-1]["actions"][: len(files)]
         for f, a in zip(files, last):
